@@ -10,6 +10,7 @@ import (
 	"errors"
 	"fmt"
 	"net"
+	"sort"
 	"strconv"
 	"strings"
 	"time"
@@ -165,6 +166,22 @@ func (r probesW) Peek(ctx context.Context) (probe.Probe, error) { return r.Repos
 func (r probesW) PopMany(ctx context.Context, n int) (out []probe.Probe, expired int, err error) {
 	r.call("popmany")
 	out, expired, err = r.Repos.Probes.PopMany(ctx, n)
+	// probes with equal ready times come back in UUID order; fix the order in which the runner works through
+	// the batch so that the calls that follow are deterministic (C12 checks the repository's own ordering)
+	sort.SliceStable(out, func(i, j int) bool {
+		a, _ := world.AddrKey(out[i].Addr.String())
+		b, _ := world.AddrKey(out[j].Addr.String())
+		if a != b {
+			return a < b
+		}
+		if out[i].Port != out[j].Port {
+			return out[i].Port < out[j].Port
+		}
+		if out[i].Goal != out[j].Goal {
+			return out[i].Goal < out[j].Goal
+		}
+		return out[i].Retries < out[j].Retries
+	})
 	r.ret("popmany", err)
 	return
 }
